@@ -343,6 +343,15 @@ def model_lines(env, mode, text):
     return out.splitlines()
 
 
+SOFT = []
+
+
+def soft(ctx, what, text):
+    """R agrees with S but not with M (or M with S): the property is not refuted on this input, only no longer shown.
+    Remembered, reported at the end (found=False) unless a real failing input turns up; never stops the search."""
+    SOFT.append((what, text))
+
+
 def crashed(rc):
     return rc in (97, 98, 124) or rc < 0 or rc >= 128
 
@@ -451,12 +460,12 @@ def check_ad(env, ctx):
             ctx.violation("array_diff does not report exactly the differing positions: " + fmt_ad(c)[:160], txt, found=True)
         elif rr != m:
             if plain:
-                ctx.violation("array_diff model differs from the library", txt, found=False)
+                soft(ctx, "array_diff model differs from the library", txt)
             else:
-                ctx.violation("array_diff with options differs from its model (no specification-level failure "
-                              "found): relation array_diff ~ array_diff_m", txt, found=False)
+                soft(ctx, "array_diff with options differs from its model (no specification-level failure "
+                              "found): relation array_diff ~ array_diff_m", txt)
         elif plain and m != s:
-            ctx.violation("model differs from specification (theorem array_diff_zero_iff_equal broken?)", txt, found=False)
+            soft(ctx, "model differs from specification (theorem array_diff_zero_iff_equal broken?)", txt)
         if len(ctx.violations) >= 4:
             break
     if (crashed(rc) or len(R) < len(cases)) and not ctx.violations:
@@ -537,8 +546,7 @@ def check_pair(env, ctx, kind, what, t1, t2, st, sdspos=None, files=None):
         return
     if verbose:
         if r_tbl != m_tbl:
-            ctx.violation("match table of hdiff -b differs from cmatch", body + "\n# model table: %s\n# hdiff table: %s\n" % (m_tbl, r_tbl),
-                          found=False)
+            soft(ctx, "match table of hdiff -b differs from cmatch", body + "\n# model table: %s\n# hdiff table: %s\n" % (m_tbl, r_tbl))
             return
         reported = len([l for l in out.splitlines() if "is only in file" in l or "does not exist" in l or l.startswith("[ ")]) > 0
         if s_exit == "1" and kind.startswith(("added", "removed")) and not reported:
@@ -552,7 +560,7 @@ def check_pair(env, ctx, kind, what, t1, t2, st, sdspos=None, files=None):
             ctx.violation("hdiff exit 1 but empty report", body + side, found=True)
             return
     if str(rc) != m_exit:
-        ctx.violation("hdiff agrees with the specification but not with its model hdiff_m", body + side, found=False)
+        soft(ctx, "hdiff agrees with the specification but not with its model hdiff_m", body + side)
         return
     if sdspos is not None and s_exit == "1":
         dims, k = sdspos
@@ -677,8 +685,8 @@ def check_dump(env, ctx, dumps):
                 if allint:
                     st["integer_objects_vs_model"] += 1
                     if mtoks.get(o["name"]) != rtoks:
-                        ctx.violation("hdp dump agrees with the API but not with the model (row walk / integer formatting)",
-                                      rec, found=False)
+                        soft(ctx, "hdp dump agrees with the API but not with the model (row walk / integer formatting)",
+                                      rec)
             if len(ctx.violations) >= 4:
                 return
     ctx.corr("hdp-dump~API-values~dump_sds_m/hdp_print", **st)
@@ -825,8 +833,8 @@ def check_imp(env, ctx):
                     rank = int(tk[1])
                     mwant = "M %d %s ; %s" % (rank, " ".join(tk[2:2 + rank]), " ".join(tk[3 + rank:]))
                     if " ".join(ml.split()) != " ".join(mwant.split()):
-                        ctx.violation("hdfimport agrees with its input but the tokeniser model does not",
-                                      rec + "# model: %s\n" % ml[:600], found=False)
+                        soft(ctx, "hdfimport agrees with its input but the tokeniser model does not",
+                                      rec + "# model: %s\n" % ml[:600])
         if len(ctx.violations) >= 4:
             break
     st["ordered_kind_pairs"] = len(pairs)
@@ -851,8 +859,8 @@ def check_pos(env, ctx):
         ctx.case(("pos", l), True)
         if m != s:
             bad += 1
-            ctx.violation("print_pos model differs from the row-major index (theorem print_pos_rowmajor broken?)",
-                          "POS\n%s\n# %s\n" % (l, o), found=False)
+            soft(ctx, "print_pos model differs from the row-major index (theorem print_pos_rowmajor broken?)",
+                          "POS\n%s\n# %s\n" % (l, o))
             break
     ctx.corr("print_pos_m~spec_index", cases=len(lines), disagreements=bad)
 
@@ -994,6 +1002,7 @@ def replay_text(env, ctx, text, report=True):
 
 
 def run(ctx):
+    del SOFT[:]
     env = Env(ctx)
     try:
         run_corpus(env, ctx)
@@ -1006,6 +1015,10 @@ def run(ctx):
             check_imp(env, ctx)
         check_pos(env, ctx)
         check_strip(env, ctx)
+        ctx.corr("model-only-disagreements", count=len(SOFT))
+        if not any(v["found"] for v in ctx.violations):
+            for what, text in SOFT[:2]:
+                ctx.violation(what, text, found=False)
     finally:
         env.cleanup()
 
